@@ -16,9 +16,13 @@ type lifeSpec struct {
 	Weights    map[string]int // action weights (default 1); 0 disables
 	Capacity   uint64
 	Drain      bool // advance until nothing is scheduled at the end of the case
+	MaxSteps   int
 }
 
-var lifeActions = []string{"storeNew", "storeUpdate", "complete", "cancel", "terminate", "renew", "migrate", "claim", "advance"}
+var lifeActions = []string{"storeNew", "storeUpdate", "complete", "cancel", "terminate", "renew", "migrate", "claim", "advance", "storeHostile", "seed", "vstorage", "bankDrain", "resetNode"}
+
+// actions that are off unless a spec gives them a weight
+var lifeOptIn = map[string]bool{"storeHostile": true, "seed": true, "vstorage": true, "bankDrain": true, "resetNode": true}
 
 func (sp *lifeSpec) newSim(t TB) (*Sim, *LifeCfg, []Oracle) {
 	os := sp.Oracles()
@@ -44,10 +48,14 @@ func (sp *lifeSpec) property() func(*rapid.T) {
 				"storeNew": cfg.GenStoreNew, "storeUpdate": cfg.GenStoreUpdate, "complete": cfg.GenComplete,
 				"cancel": cfg.GenCancel, "terminate": cfg.GenTerminate, "renew": cfg.GenRenew,
 				"migrate": cfg.GenMigrate, "claim": cfg.GenClaim, "advance": cfg.GenAdvance,
+				"storeHostile": cfg.GenStoreHostile, "seed": cfg.GenSeed, "vstorage": cfg.GenVstorage, "bankDrain": cfg.GenBankDrain, "resetNode": cfg.GenResetNode,
 			}
 			var menu []string
 			for _, k := range lifeActions {
 				w := 1
+				if lifeOptIn[k] {
+					w = 0
+				}
 				if sp.Weights != nil {
 					if x, ok := sp.Weights[k]; ok {
 						w = x
@@ -57,7 +65,11 @@ func (sp *lifeSpec) property() func(*rapid.T) {
 					menu = append(menu, k)
 				}
 			}
-			n := rapid.IntRange(1, 40).Draw(t, "steps")
+			maxSteps := sp.MaxSteps
+			if maxSteps == 0 {
+				maxSteps = 40
+			}
+			n := rapid.IntRange(1, maxSteps).Draw(t, "steps")
 			for i := 0; i < n; i++ {
 				k := rapid.SampledFrom(menu).Draw(t, "action")
 				a := gens[k](t, s)
@@ -129,3 +141,20 @@ var specC14 = &lifeSpec{
 func init() { specC14.register() }
 
 func TestC14(t *testing.T) { runRapid(t, "TestC14", specC14.property()) }
+
+// ---- C02 (histories) ----
+
+var specC02 = &lifeSpec{
+	Prop: "C02", Test: "TestC02History",
+	Oracles: func() []Oracle { return nil },
+	Nontrivial: func(s *Sim, os []Oracle) bool {
+		return s.Labels["expired"]+s.Labels["rotated"]+s.Labels["timeout-reassigned"]+s.Labels["order-gave-up"]+s.Labels["replica-reduced"]+s.Labels["model-expired"] > 0
+	},
+	Weights:  map[string]int{"complete": 4, "advance": 4, "storeNew": 2, "storeHostile": 2, "seed": 1, "vstorage": 1, "bankDrain": 1, "renew": 2},
+	Drain:    true,
+	MaxSteps: 50,
+}
+
+func init() { specC02.register() }
+
+func TestC02History(t *testing.T) { runRapid(t, "TestC02History", specC02.property()) }
